@@ -45,7 +45,7 @@ class FloatSpec (F : Type) extends FloatLike F where
   /-- scaling by a power of two is exact away from the subnormal range and overflow -/
   rep_scale : ∀ {x : ℝ} (k : ℤ), Rep x → (1 : ℝ) / 2 ^ 1000 ≤ |x * 2 ^ k| → |x * 2 ^ k| ≤ 2 ^ 1000 →
     Rep (x * 2 ^ k)
-  inRange_of_le : ∀ {x : ℝ}, |x| ≤ 10 ^ 300 → InRange x
+  inRange_of_le : ∀ {x : ℝ}, |x| ≤ 10 ^ 250 → InRange x
   inRange_val : ∀ {a : F}, Fin a → InRange (val a)
   inRange_mono : ∀ {x y : ℝ}, |x| ≤ |y| → InRange y → InRange x
   -- ---------------------------------------------------------------- + − × ÷ √
@@ -110,7 +110,8 @@ class FloatSpec (F : Type) extends FloatLike F where
   asin_spec : ∀ {a : F}, Fin a → |val a| ≤ 1 →
     Fin (FloatLike.asin a) ∧ |val (FloatLike.asin a)| ≤ piV / 2
   exp_spec : ∀ {a : F}, Fin a → |val a| ≤ 700 → Fin (FloatLike.exp a) ∧ 0 < val (FloatLike.exp a) ∧
-    (0 ≤ val a → 1 ≤ val (FloatLike.exp a)) ∧ (val a ≤ 0 → val (FloatLike.exp a) ≤ 1)
+    (0 ≤ val a → 1 ≤ val (FloatLike.exp a)) ∧ (val a ≤ 0 → val (FloatLike.exp a) ≤ 1) ∧
+    (|val a| ≤ 1 → 1 / 3 ≤ val (FloatLike.exp a) ∧ val (FloatLike.exp a) ≤ 3)
   tanh_spec : ∀ {a : F}, Fin a → Fin (FloatLike.tanh a) ∧ |val (FloatLike.tanh a)| ≤ 1
 
 export FloatSpec (Fin val rnd Rep InRange piV)
